@@ -148,5 +148,31 @@ pub fn property(tier: Tier) -> Property {
             exhaustive: false,
         }));
     }
+    {
+        let max_ops = tier.pick(6, 9);
+        let wide = move || {
+            let mut cfg = HistCfg::core();
+            cfg.namings = Naming::diverse();
+            cfg.max_ops = max_ops;
+            cfg.gen.alphabet = 5;
+            cfg.gen.max_fv = 5;
+            cfg.gen.max_depth = 2;
+            cfg.gen.ops = Some(vec!["v", "f2", "g3", "g4", "h4", "g5", "c0", "p", "w", "lam"]);
+            cfg.weights = [1, 1, 4, 3, 1, 2, 3, 1, 4, 1, 2, 5];
+            (hist_strategy(cfg), proptest::collection::vec(any::<u16>(), 0..40), proptest::collection::vec(any::<bool>(), 0..16))
+                .prop_map(|(hist, perm, flips)| OrderCase { hist, perm, flips })
+                .boxed()
+        };
+        stages.push(Box::new(Stage {
+            name: "order-core-wide",
+            source: random(wide, tier.pick(3000, 60_000)),
+            run,
+            panic_is_violation: false,
+            render: |c: &OrderCase| format!("{} perm={:?} flips={:?}", c.hist.render(), c.perm, c.flips),
+            rule: "as order-core, over a 5-name alphabet with leaves of up to 5 slots (symmetries that are products of cycles; several slots redundant in one step; orbits cut in the middle)",
+            case_timeout_s: tier.pick(30, 120),
+            exhaustive: false,
+        }));
+    }
     Property { id: "C12", scale: tier.pick(4, 2), stages, assumptions: vec![] }
 }
